@@ -405,7 +405,7 @@ class Incarnation:
         if mode == "pool":
             pc = c.get("pool", {})
             faults = {"death_at_map": pc["death_at_map"]} if pc.get("death_at_map") is not None and self.no == pc.get("death_inc", 0) else None
-            p = SimPool(pc.get("workers", 3), seed=w.sched.np_seed(f"pool{self.no}.{len(self.pools)}"), faults=faults, stats=w.stats, lazy=bool(pc.get("lazy")))
+            p = SimPool(pc.get("workers", 3), seed=w.sched.np_seed(f"pool{self.no}.{len(self.pools)}.{pc.get('order', 0)}"), faults=faults, stats=w.stats, lazy=bool(pc.get("lazy")))
             self.pools.append(p)
             kw["pool"] = p
         elif mode == "poolint":
